@@ -13,7 +13,7 @@ for d in seeded/*/; do
   echo "$id" | grep -Eq "$re" || continue
   other=$(python3 - "$id" <<'PY'
 import sys
-keep={'C05-m2':'C12','C07-m4':'C16','C10-m4':'C16','C19-m8':'C06'}
+keep={'C05-m2':'C12','C07-m4':'C16','C10-m4':'C16','C19-m8':'C06','C09-m12':'C15','C05-m11':'C12'}
 print(keep.get(sys.argv[1], sys.argv[1].split('-')[0]))
 PY
 )
